@@ -63,7 +63,7 @@ def race_pairs(out):
 
 
 def run(ctx):
-    tier, rng = ctx.tier, ctx.rng
+    tier, rng = ctx.tier, ctx.sub_rng("fam_snapshot.1")
     # ---------------- design: the repaired locking discipline, all interleavings
     consts = dict(N=2, F=3, Synced=True, Reqs={2, 3}, TReqs={4})
     d = ctx.tlc("design", "Snapshot", mkcfg(spec="Spec", constants=consts, invariants=["NoRace", "WholeFrame", "Fresh"],
